@@ -255,11 +255,19 @@ def stallpair_rule(ctx: Ctx, rid: str) -> None:
             for k in ast.walk(n):
                 if isinstance(k, ast.If):
                     t = " ".join(ast.unparse(k.test).split())
-                    if "self.stalled is not None" in t and "self.stalled[0] < num_to_flush" in t \
-                            and any(is_clear(st, "stalled") for st in k.body):
+                    cmp_ok = False
+                    for c in ast.walk(k.test):
+                        if isinstance(c, ast.Compare) and len(c.ops) == 1 and isinstance(c.ops[0], (ast.Lt, ast.LtE)):
+                            from .linear import linform as _lf
+                            d = _lf(ast.BinOp(left=c.left, op=ast.Sub(), right=c.comparators[0]))
+                            want = {"self.stalled[0]": 1, "num_to_flush": -1}
+                            if isinstance(c.ops[0], ast.LtE):
+                                want = dict(want, **{"": 1})
+                            cmp_ok = cmp_ok or d == want
+                    if "self.stalled is not None" in t and cmp_ok and any(is_clear(st, "stalled") for st in k.body):
                         ok = True
     r.check(ok, "Pipeline.step|flush-cancels-stall", step.loc(),
-            "the flush branch no longer cancels a stall whose stalling stage (index < num_to_flush) was flushed")
+            "the flush branch no longer cancels a stall exactly when its stalling stage was flushed (self.stalled[0] < num_to_flush)")
     # flush clears exactly the latches before the flushing one and redirects pc
     txt = " ".join(ast.unparse(step.node).split())
     ok = "self.pipeline_registers[:num_to_flush] = [PipelineRegister()] * num_to_flush" in txt \
